@@ -390,6 +390,7 @@ def check(ctx):
         rmap = {}
         if len(dsw) == 1:
             kinds = foreign_variants(F, 'dcbor::cbor::CBORCase')
+            ckinds = kinds
             regs = arm_regions(db, dsw[0][0])
             for val, (tgt, reg) in regs.items():
                 if val == 'otherwise' or not isinstance(val, int):
@@ -410,6 +411,18 @@ def check(ctx):
             for k in kinds:
                 if rmap.get(k) != {vn}:
                     okk = False
+        # the reader accepts every item of a kind the writer produces: no refusal is reachable from the arm of such a kind
+        if len(dsw) == 1 and wmap:
+            written = set().union(*wmap.values())
+            for val, (tgt, reg) in regs.items():
+                if val == 'otherwise' or not isinstance(val, int) or ckinds[val] not in written:
+                    continue
+                for bi, si, t in ret_defs(dtb, db.reachable(tgt)):
+                    st = strip_sites(detry(t))
+                    if (st[0] == 'agg' and st[2] == 'Err') or m_call(t, name='from_residual') is not None:
+                        okk = False
+                        ctx.fail('C18.1', ctx.site(db, bi, si), '%s reader refuses some %s items although the writer produces that kind for every %s' % (ty, ckinds[val], sorted(v for v, ks in wmap.items() if ckinds[val] in ks)),
+                                 key='C18.1|codec-refusal|%s|%s' % (ty, ckinds[val]))
         if wmap and rmap and okk and all(wmap.values()):
             ctx.ok('C18.1', ctx.site(eb), '%s codec: writer %s, reader %s' % (ty, {k: sorted(v) for k, v in wmap.items()}, {k: sorted(v) for k, v in rmap.items()}))
         else:
